@@ -562,7 +562,12 @@ func (gb *gcpBalancer) UpdateSubConnState(sc balancer.SubConn, scs balancer.SubC
 			gb.log.Infof("handle replacement SubConn state change: %p, %v", sc, s)
 		}
 		if s != connectivity.Ready {
-			// Ignore the replacement sc until it's ready.
+			// Ignore the replacement sc until it's ready. An idle one (e.g. its first connection
+			// attempt failed and gRPC backed off) has to be asked to connect again, otherwise it
+			// never becomes ready and the channel is stuck with "refreshing" set.
+			if s == connectivity.Idle {
+				sc.Connect()
+			}
 			return
 		}
 
